@@ -1,9 +1,11 @@
 /- Driver ops for RubiksCube.
-   Ops: rubiks_cube.{step, state, judge, instance, play} -/
+   Ops: rubiks_cube.{step, state, judge, instance, play, bounds, spec, run} -/
 import JumanjiModel.Bridge.Json
 import JumanjiModel.Env.RubiksCube.Model
 import JumanjiModel.Env.RubiksCube.Bounds
 import JumanjiModel.Bridge.PuzzleBounds
+import JumanjiModel.Bridge.Spec
+import JumanjiModel.Env.RubiksCube.Episode
 open Lean Jb
 
 namespace Jb.RubiksCube
@@ -49,6 +51,9 @@ def legalAct (n : Nat) (a : Int × Int × Int) : Bool :=
 def needShape (cfg : Cfg) (c : Cube Int) : Except String Unit :=
   if shapedB cfg.n c then pure () else throw s!"cube is not of shape (6, {cfg.n}, {cfg.n})"
 
+def jNValue (v : Sp.NValue) : Json := jList (fun (e : String × Sp.Arr) => jObj [("key", jStr e.1), ("value", SpecOps.jArr e.2)]) v
+def jNested (s : Sp.Nested) : Json := jList (fun (e : String × Sp.Leaf) => jObj [("key", jStr e.1), ("spec", SpecOps.jLeaf e.2)]) s
+
 /-- L1 step; `valid` = the action lies in the action space (every such action is legal) -/
 def opStep : Op := fun j => do
   let cfg ← getCfg j
@@ -65,6 +70,11 @@ def opState : Op := fun j => do
   let s ← getState cfg.n (← field j "state")
   let solved := decide (Monochrome cfg.n s.cube)
   pure (jObj [("obs", jObs { cube := s.cube, stepCount := s.stepCount }),
+              -- wave 2: the timestep `reset` builds for this state, the observation as spec-level arrays, and whether the
+              -- model's `obsSpec cfg` accepts it
+              ("reset_ts", jTimeStep jObs (Jm.restart (observe s))),
+              ("nvalue", jNValue (toNValue (observe s))),
+              ("obs_in_spec", jBool ((obsSpec cfg).valid (toNValue (observe s)))),
               ("consistent", jBool (shapedB cfg.n s.cube && colourCountsOK cfg.n s.cube)),
               ("solved", jBool solved),
               ("solved_l1", jBool (isSolved s.cube)),
@@ -159,8 +169,31 @@ def opBounds : Op := fun j => do
   let cfg ← getCfg j
   pure (jBoundsTable (obsBounds cfg))
 
+/-- {cfg} → the specs of the model (`obsSpec`, `actionSpec`, reward and discount spec) in the `speclib.leaf_json` layout, and
+    `generate_value()` of the action spec with its legality -/
+def opSpec : Op := fun j => do
+  let cfg ← getCfg j
+  let g := (actionSpec cfg).generate
+  pure (jObj [("observation_spec", jNested (obsSpec cfg)), ("action_spec", SpecOps.jLeaf (actionSpec cfg)),
+              ("reward_spec", SpecOps.jLeaf PzS.rewardSpec), ("discount_spec", SpecOps.jLeaf PzS.discountSpec),
+              ("action_spec_wf", jBool (actionSpec cfg).WF),
+              ("generate_value", SpecOps.jArr g),
+              ("generate_value_legal", jBool (decide (legal cfg.n ⟨0, 0, 0⟩) && g == actionArr (Move.act ⟨0, 0, 0⟩)))])
+
+/-- {cfg, state, actions} → the L1 episode `run cfg state actions` (every successor state and timestep, through LAST) and the
+    index of the first LAST -/
+def opRun : Op := fun j => do
+  let cfg ← getCfg j
+  let s ← getState cfg.n (← field j "state")
+  needShape cfg s.cube
+  let acts ← getList getAction (← field j "actions")
+  let rs := run cfg s acts
+  let firstLast := (rs.map (fun r => r.2.stepType == Jm.StepType.last)).idxOf true
+  pure (jObj [("steps", jList (fun (r : State × Jm.TimeStep Obs) => jObj [("state", jState r.1), ("ts", jTimeStep jObs r.2)]) rs),
+              ("first_last", if firstLast < rs.length then jNat (firstLast + 1) else .null)])
+
 def ops : List (String × Op) :=
-  [("rubiks_cube.step", opStep), ("rubiks_cube.state", opState), ("rubiks_cube.judge", opJudge),
+  [("rubiks_cube.spec", opSpec), ("rubiks_cube.run", opRun), ("rubiks_cube.step", opStep), ("rubiks_cube.state", opState), ("rubiks_cube.judge", opJudge),
    ("rubiks_cube.instance", opInstance), ("rubiks_cube.play", opPlay),
    ("rubiks_cube.bounds", opBounds)]
 end Jb.RubiksCube
